@@ -753,12 +753,30 @@ class Engine:
                 isobj = z3.And(PyVal.is_RefV(o.t), z3.Or([self.cls_term(st, PyVal.rval(o.t)) == self.class_ids[c] for c in self.concrete_subclasses(owner)]))
                 return self.branch(st, isobj, lambda s: self.get_attr(ref, attr, s, fr, k),
                                    lambda s: self.raise_new(s, "AttributeError"), f"dyn.{attr}")
+            pown = self.dyn_property_owner(attr)
+            if pown is not None:
+                # a property that exactly one repository class defines (e.g. NameParts.merge_last_name_first): the value must
+                # be an object of that class, anything else has no such attribute
+                ref = SRef(PyVal.rval(o.t), "ref:" + pown)
+                if st.spec:
+                    return self.get_attr(ref, attr, st, fr, k)
+                isobj = z3.And(PyVal.is_RefV(o.t), z3.Or([self.cls_term(st, PyVal.rval(o.t)) == self.class_ids[c] for c in self.concrete_subclasses(pown)]))
+                return self.branch(st, isobj, lambda s: self.get_attr(ref, attr, s, fr, k),
+                                   lambda s: self.raise_new(s, "AttributeError"), f"dyn.{attr}")
             return k(st, SFunc("dynattr", attr, bound_self=o))
         if isinstance(o, SFunc) and o.what == "super":
             return k(st, self.super_attr(o, attr, st, fr))
         if isinstance(o, SNone):
             return self.raise_new(st, "AttributeError")
         raise EngineError(f"attribute {attr} of {o!r}")
+
+    def dyn_property_owner(self, attr):
+        cache = self.__dict__.setdefault("_dyn_prop_cache", {})
+        if attr not in cache:
+            owners = [c for c, ci in self.repo.classes.items() if attr in ci.properties]
+            clash = any(attr in ci.methods for ci in self.repo.classes.values()) or any(attr in a_ for a_ in self.schema.values())
+            cache[attr] = owners[0] if (len(owners) == 1 and not clash) else None
+        return cache[attr]
 
     def dyn_data_owners(self, attr):
         """classes whose schema declares `attr` as a data attribute, when no repo class has a method / property of that
